@@ -28,7 +28,7 @@ def all_tasks():
 
     tasks += engines_tasks.all_tasks()
     tasks += blocks_tasks.all_tasks()
-    for modname in ("writers_tasks", "network_tasks", "lemma_tasks", "core_tasks", "construct_tasks", "views_content_tasks", "valid_tasks", "valid_agg_tasks", "compile_tasks", "layout_tasks"):
+    for modname in ("writers_tasks", "network_tasks", "lemma_tasks", "core_tasks", "construct_tasks", "views_content_tasks", "valid_agg_tasks", "compile_tasks", "layout_tasks"):
         try:
             mod = __import__("contracts." + modname, fromlist=["all_tasks"])
         except ImportError:
